@@ -26,17 +26,17 @@ use vrp_core::solver::{GreedyPopulation, RefinementContext};
 
 const INF: f64 = 1_000_000.;
 
-struct World {
-    problem: Arc<Problem>,
-    jobs: Vec<Job>,   // palette order
-    spec: Value,
+pub struct World {
+    pub problem: Arc<Problem>,
+    pub jobs: Vec<Job>,   // palette order
+    pub spec: Value,
 }
 
-fn tws(v: &Value) -> Vec<TimeWindow> {
+pub fn tws(v: &Value) -> Vec<TimeWindow> {
     v.as_array().unwrap().iter().map(|w| TimeWindow::new(w[0].as_f64().unwrap(), w[1].as_f64().unwrap())).collect()
 }
 
-fn build_world(spec: &Value, goal_kind: &str) -> World {
+pub fn build_world(spec: &Value, goal_kind: &str) -> World {
     let d: Vec<Vec<f64>> = spec["d"].as_array().unwrap().iter().map(|r| r.as_array().unwrap().iter().map(|x| x.as_f64().unwrap()).collect()).collect();
     let flat: Vec<f64> = d.iter().flatten().cloned().collect();
     let transport: Arc<dyn TransportCost> = Arc::new(SimpleTransportCost::new(flat.clone(), flat).unwrap());
@@ -130,7 +130,11 @@ fn build_world(spec: &Value, goal_kind: &str) -> World {
     let problem = Arc::new(
         ProblemBuilder::default()
             .add_jobs(jobs.clone().into_iter())
-            .add_vehicles(std::iter::once(vehicle))
+            .add_vehicles((1..=spec["vehicles"].as_u64().unwrap_or(1)).map(|k| {
+                let mut v = vehicle.clone();
+                v.dimens.set_vehicle_id(format!("v{k}"));
+                v
+            }))
             .with_goal(goal)
             .with_transport_cost(transport)
             .build()
@@ -140,14 +144,14 @@ fn build_world(spec: &Value, goal_kind: &str) -> World {
 }
 
 
-fn single_of(world: &World, j: usize, part: usize) -> Arc<Single> {
+pub fn single_of(world: &World, j: usize, part: usize) -> Arc<Single> {
     match &world.jobs[j] {
         Job::Single(s) => s.clone(),
         Job::Multi(m) => m.jobs[part - 1].clone(),
     }
 }
 
-fn task_spec<'a>(world: &'a World, j: usize, part: usize) -> &'a Value {
+pub fn task_spec<'a>(world: &'a World, j: usize, part: usize) -> &'a Value {
     let jb = &world.spec["jobs"][j];
     match part {
         1 => &jb["p"],
@@ -157,7 +161,7 @@ fn task_spec<'a>(world: &'a World, j: usize, part: usize) -> &'a Value {
 }
 
 /// Builds a context whose single route holds exactly the given tour (activities keep the window they were given).
-fn build_ctx(world: &World, tour: &Value, env: Arc<Environment>) -> InsertionContext {
+pub fn build_ctx(world: &World, tour: &Value, env: Arc<Environment>) -> InsertionContext {
     let problem = world.problem.clone();
     let mut ictx = InsertionContext::new(problem.clone(), env);
     ictx.solution.required.clear();
@@ -186,7 +190,7 @@ fn build_ctx(world: &World, tour: &Value, env: Arc<Environment>) -> InsertionCon
 }
 
 /// The tour of the (only) route as spec activities [j, part, w].
-fn read_tour(world: &World, ictx: &InsertionContext) -> Value {
+pub fn read_tour(world: &World, ictx: &InsertionContext) -> Value {
     let Some(rc) = ictx.solution.routes.first() else { return json!([]) };
     let acts: Vec<Value> = rc
         .route()
@@ -212,7 +216,7 @@ fn read_tour(world: &World, ictx: &InsertionContext) -> Value {
     json!(acts)
 }
 
-fn result_json(world: &World, r: &InsertionResult) -> Value {
+pub fn result_json(world: &World, r: &InsertionResult) -> Value {
     match r {
         InsertionResult::Success(s) => {
             let acts: Vec<Value> = s
